@@ -407,13 +407,13 @@ def debugger_session(text, opts):
 # ---------------------------------------------------------------------------------------------------------
 # C11
 
-def c11_case(text, opts, cmds):
+def c11_case(text, opts, cmds, max_steps=4000):
     """Returns a description of the difference, or None."""
-    if load_terminating(text, opts) is None:
+    if load_terminating(text, opts, max_steps=max_steps) is None:
         if load_terminating(text, opts, max_steps=400, mode="") is not None:
             return "the program terminates (within 400 operations) as loaded for the interpreter but not (within 4000) as loaded for the debugger"
         return "skip"
-    if load_terminating(text, opts, max_steps=40000, mode="") is None:
+    if load_terminating(text, opts, max_steps=10 * max_steps, mode="") is None:
         # the program as the debugger loads it ends within 4000 operations, as the interpreter loads it it does not end in 40000
         return "the program terminates as loaded for the debugger but not as loaded for the interpreter"
     vm_i, out_i, diags_i, exc_i = interp_result(text, opts)
@@ -444,15 +444,33 @@ def c11_case(text, opts, cmds):
     return None
 
 
+def deep_programs():
+    """call nesting far beyond anything a recursive implementation of the stepping commands could hold on Python's stack:
+    recursion 1500 deep, and 1500 calls in a loop to a function that goes back with BR(PC_ret) (the call counter of the
+    debugger never drops); each with the commands that step over the outermost CALL"""
+    deep = RECURSION.replace("SET(R1, 4)", "SET(R1, 1500)")
+    loop = ("SET(R1, 1500)\nSET(R2, 0)\nLABEL(again)\nCALL(FP_alt, f)\nDEC(R1, 1)\nBNZ(again)\nSET(R5, 77)\nHALT()\n"
+            "LABEL(f)\nINC(R2, 4)\nBR(PC_ret)\n")
+    for text in (deep, loop):
+        for cmds in (["next"] * 8, ["next 3", "next", "continue"], ["step", "next 30", "continue"], ["continue"]):
+            yield text, cmds
+
+
 def check_c11(seed, n):
     rng = random.Random(seed)
     violations, evals, dist = [], 0, {"cmds": 0, "with_calls": 0, "options": 0}
     seen = set()
-    for k in range(n):
-        text = gen_program(rng, seed * 7919 + k)
-        opts = options(rng)
-        cmds = gen_run_cmds(rng, 0)
-        r = c11_case(text, opts, cmds)
+    planned = [(t, {}, c, 60000) for t, c in deep_programs()]
+    for k in range(n + len(planned)):
+        if k < len(planned):
+            text, opts, cmds, budget = planned[k]
+            dist["deep"] = dist.get("deep", 0) + 1
+        else:
+            text = gen_program(rng, seed * 7919 + k)
+            opts = options(rng)
+            cmds = gen_run_cmds(rng, 0)
+            budget = 4000
+        r = c11_case(text, opts, cmds, max_steps=budget)
         if cmds and r != "skip":
             proto.sample("c11", {"text": text[:400], "opts": opts, "cmds": cmds})
         if r == "skip":
